@@ -70,7 +70,7 @@ func (a Addr) Network() string {
 	}
 	return "mem"
 }
-func (a Addr) String() string  { return fmt.Sprintf("mem:%d", a.ID) }
+func (a Addr) String() string { return fmt.Sprintf("mem:%d", a.ID) }
 
 var ErrInjected = errors.New("mem: injected transport failure")
 
